@@ -175,6 +175,36 @@ def aggregation(expr, is_atom, depth=0):
     return None
 
 
+def nan_unsafe_extremum(func_node, expr, depth=0):
+    '''The Python builtins min() / max() (and the numpy nan* variants) over
+    the per-bin / per-dataset values: a NaN is skipped or kept depending on
+    its POSITION (min([0.9, nan]) == 0.9, min([nan, 0.9]) is nan), so an
+    undefined statistic may silently pass.  Returns the offending call or
+    None.  Names are followed through the local assignments.'''
+    if depth > 3 or expr is None:
+        return None
+    for node in ast.walk(expr):
+        if isinstance(node, ast.Call):
+            if isinstance(node.func, ast.Name) and node.func.id in (
+                    'min', 'max') and node.args and not all(
+                        isinstance(a, ast.Constant) for a in node.args):
+                return node
+            if isinstance(node.func, ast.Attribute) and node.func.attr in (
+                    'nanmin', 'nanmax', 'nanargmin', 'nanargmax', 'nansum',
+                    'nanmean', 'fmin', 'fmax'):
+                return node
+        if isinstance(node, ast.Name) and isinstance(node.ctx, ast.Load):
+            for sub in walk_local(func_node):
+                if isinstance(sub, ast.Assign) and any(
+                        isinstance(t, ast.Name) and t.id == node.id
+                        for t in sub.targets):
+                    found = nan_unsafe_extremum(func_node, sub.value,
+                                                depth + 1)
+                    if found is not None:
+                        return found
+    return None
+
+
 def accumulator_form(func_node, is_atom, resolve=None):
     '''Verdict of a method body.  Handles `return <expr>` and the
     accumulator idiom  acc = True; for ..: acc = acc and X; return acc.
@@ -198,6 +228,10 @@ def accumulator_form(func_node, is_atom, resolve=None):
         if not isinstance(node, ast.Return) or node.value is None:
             continue
         val = node.value
+        unsafe = nan_unsafe_extremum(func_node, val)
+        if unsafe is not None:
+            out.append((node, ('nan-unsafe:' + txt(unsafe)[:50], +1)))
+            continue
         if isinstance(val, ast.Name) and val.id in inits and \
                 val.id in updates:
             name = val.id
